@@ -48,6 +48,8 @@ BOUND = {
     "thorough": "seeds 0..127; histories depth<=3 cold and warm; schedules: all unordered pairs of the 11 driver forms incl. self-pairs, cold and warm, <=1 preemption at the first and last occurrence of every distinct line, and at every line point for the 7 collision-prone pairs (cold); 3-thread one-preemption for 2 triples; 2 preemptions at call granularity for 4 pairs (location-deduplicated)",
 }
 
+BOUND = {k: v + "; plus 5 further driver forms (pulldata in every bind attribute, defaulted range parameters, two untagged languages in either column order, both id columns) in the seed sweep, in depth-3 histories among themselves and depth-2 with every driver, in regeneration; re-use: the same workbook object converted 3 times, and alternated with another form" for k, v in BOUND.items()}
+
 # ------------------------------------------------------------------ driver alphabet -------
 CH = [{"list_name": "c", "name": "x", "label": "X"}, {"list_name": "c", "name": "y", "label": "Y"}]
 FORMS = {
@@ -103,9 +105,33 @@ FORMS = {
                        {"type": "select_one_from_file f.csv", "name": "ff", "label": "F", "choice_filter": "a=${q}"}],
             "external_choices": [{"list_name": "e", "name": "p", "label": "P", "state": "s1"}, {"list_name": "e", "name": "r", "state": "s2", "zone": "z"}]},
 }
-NAMES = list(FORMS)
+NAMES = list(FORMS)  # the drivers of the schedule exploration
+# further drivers for the seed sweep, histories, regeneration and object re-use (not part of the schedule pairs)
+XFORMS = {
+    # pulldata() in several bind attributes of one question and in a choice filter: one csv instance per file, in a fixed order
+    "pd": {"survey": [{"type": "text", "name": "a", "label": "A", "calculation": "pulldata('f1', 'x', 'k', 1)", "constraint": "pulldata('f2', 'x', 'k', .)",
+                       "relevant": "pulldata('f3', 'x', 'k', 1) = 1", "required": "pulldata('f4', 'x', 'k', 1) = 1", "read_only": "pulldata('f5', 'x', 'k', 1) = 1"},
+                      {"type": "select_one c", "name": "s", "label": "S", "choice_filter": "name = pulldata('f6', 'x', 'k', ${a})", "default": "pulldata('f7', 'x', 'k', 1)"}],
+           "choices": CH},
+    # range questions that leave some or all of start/end/step to the defaults; image/audio/geopoint parameters
+    "range": {"survey": [{"type": "range", "name": "r0", "label": "R0"}, {"type": "range", "name": "r1", "label": "R1", "parameters": "end=7"},
+                         {"type": "range", "name": "r2", "label": "R2", "parameters": "step=2 start=2"},
+                         {"type": "image", "name": "im", "label": "I", "parameters": "max-pixels=100 app=com.x.y"},
+                         {"type": "geopoint", "name": "gp", "label": "G", "parameters": "allow-mock-accuracy=true capture-accuracy=5 warning-accuracy=9"},
+                         {"type": "audit", "name": "audit", "parameters": "location-priority=balanced location-min-interval=1 location-max-age=2 track-changes=true identify-user=true"}]},
+    # two languages without an IANA subtag, columns in either order (the warning lists them in the form's own order)
+    "lang2": {"survey": [{"type": "text", "name": "q", "label::Foo": "Qf", "label::Bar": "Qb", "hint::Bar": "Hb"}]},
+    "lang2r": {"survey": [{"type": "text", "name": "q", "label::Bar": "Qb", "label::Foo": "Qf", "hint::Foo": "Hf"}]},
+    # both id columns in the settings sheet (a warning, one of them is dropped)
+    "dupid": {"survey": [{"type": "text", "name": "q", "label": "Q"}], "settings": [{"id_string": "x1", "form_id": "x2", "form_title": "T"}],
+              "settings_header": [{"id_string": None, "form_id": None, "form_title": None}]},
+}
+FORMS.update(XFORMS)
+XNAMES = list(XFORMS)
+ALL = NAMES + XNAMES
 HIST = ["grp", "rep", "inst", "other", "ent", "ent2", "tr", "search", "ext", "dl"]
-PROBE = ["long", "guidance", "image", "audio", "video", "big-image", "default", "English (en)", "French (fr)", "label", "hint", "name", "list_name", "state", "zone"]
+PROBE = ["long", "guidance", "image", "audio", "video", "big-image", "default", "English (en)", "French (fr)", "label", "hint", "name", "list_name", "state", "zone",
+         "start", "end", "step", "calculate", "constraint", "readonly", "required", "relevant", "Foo", "Bar"]
 
 QUICK_PAIRS = [("grp", "rep"), ("rep", "rep2"), ("inst", "inst2"), ("inst", "inst"), ("other", "ent"), ("tr", "search"), ("search", "dl"), ("ent", "ent2")]
 QUICK_WARM = [("rep", "rep2")]
@@ -166,9 +192,9 @@ def ref():
     if _REF is None:
         from concurrent.futures import ThreadPoolExecutor
 
-        with ThreadPoolExecutor(len(NAMES)) as ex:
-            rs = list(ex.map(lambda n: fresh({n: FORMS[n]}, 0)["res"][n], NAMES))
-        _REF = dict(zip(NAMES, rs))
+        with ThreadPoolExecutor(len(ALL)) as ex:
+            rs = list(ex.map(lambda n: fresh({n: FORMS[n]}, 0)["res"][n], ALL))
+        _REF = dict(zip(ALL, rs))
     return _REF
 
 
@@ -196,7 +222,7 @@ def clear_caches():
 
 def warm_up():
     """all driver forms converted once in this process (lazy imports done, caches warm)"""
-    for n in NAMES:
+    for n in ALL:
         convert_form(n)
 
 
@@ -297,6 +323,9 @@ def blocks(tier):
     rg = list(gen_regen(tier))
     for i in range(0, len(rg), 60):
         yield ("regen", i, min(len(rg), i + 60))
+    ru = list(gen_reuse(tier))
+    for i in range(0, len(ru), 30):
+        yield ("reuse", i, min(len(ru), i + 30))
     if tier == "quick":
         plan = [(p, False) for p in QUICK_PAIRS] + [(p, True) for p in QUICK_WARM]
     else:
@@ -335,17 +364,20 @@ def gen_hist(tier):
             for seq in itertools.product(HIST, repeat=d):
                 yield {"g": "hist", "seq": list(seq), "warm": warm}
     # the three extra drivers behind every other form (depth 2)
-    for x in ("rep2", "inst2"):
-        for y in NAMES:
+    for x in ("rep2", "inst2", *XNAMES):
+        for y in ALL:
             yield {"g": "hist", "seq": [x, y], "warm": False}
             yield {"g": "hist", "seq": [y, x], "warm": False}
+    for warm in (False, True):
+        for seq in itertools.product(XNAMES, repeat=3):
+            yield {"g": "hist", "seq": list(seq), "warm": warm}
 
 
 OPS = ["xml_c", "xml_p", "json", "dom"]
 
 
 def gen_regen(tier):
-    for n in NAMES:
+    for n in ALL:
         for d in range(1, 4):
             for seq in itertools.product(OPS, repeat=d):
                 if not any(o.startswith("xml") for o in seq[1:]) and d > 1:
@@ -353,8 +385,20 @@ def gen_regen(tier):
                 yield {"g": "regen", "form": n, "ops": list(seq)}
 
 
+def gen_reuse(tier):
+    """the caller's own workbook object handed to convert() again (no copy in between), alone and with another form converted in between"""
+    for n in ALL:
+        yield {"g": "reuse", "seq": [n, n, n]}
+        for m in (ALL if tier == "thorough" else XNAMES):
+            if m != n:
+                yield {"g": "reuse", "seq": [n, m, n, m]}
+
+
 def expand(block, tier):
     kind = block[0]
+    if kind == "reuse":
+        yield from itertools.islice(gen_reuse(tier), block[1], block[2])
+        return
     if kind == "seed":
         for s in range(block[1], block[2]):
             yield {"g": "seed", "seed": s}
@@ -383,16 +427,16 @@ def expand(block, tier):
 
 
 def required_outcomes(tier):
-    return {"seed:same", "hist:ok", "regen:ok", "sched:ok"}
+    return {"seed:same", "hist:ok", "regen:ok", "sched:ok", "reuse:ok"}
 
 
 # ------------------------------------------------------------------ executions ------------
 def check_seed(case):
     probe = [list(c) for r in (2, 3) for c in itertools.combinations(PROBE, r)]
-    got = fresh({n: FORMS[n] for n in NAMES}, case["seed"], probe)
+    got = fresh({n: FORMS[n] for n in ALL}, case["seed"], probe)
     viol = []
     R = ref()
-    for n in NAMES:
+    for n in ALL:
         part, d = diff_sig(got["res"][n], R[n])
         if part:
             viol.append((f"hash-seed:{part}-differs:{n}", f"PYTHONHASHSEED={case['seed']} {d}"))
@@ -401,7 +445,7 @@ def check_seed(case):
         extra[f"perm:{key}:{'|'.join(order)}"] = 1
     base = fresh({}, 0, probe)["perms"] if case["seed"] else got["perms"]
     differs = sum(1 for k in base if base[k] != got["perms"][k])
-    return {"outcome": "seed:same" if not viol else "seed:differs", "nt": differs > 0 and not viol, "viol": viol, "tr": len(NAMES), "extra": extra}
+    return {"outcome": "seed:same" if not viol else "seed:differs", "nt": differs > 0 and not viol, "viol": viol, "tr": len(ALL), "extra": extra}
 
 
 def check_hist(case):
@@ -434,6 +478,33 @@ def check_hist(case):
             viol.append((f"history:tmp-residue:{n}", str(files)))
     return {"outcome": "hist:ok" if not viol else "hist:bad", "nt": len(case["seq"]) > 1 and not viol, "viol": viol[:3], "tr": len(case["seq"]),
             "extra": {f"mutated-container:{k}": 1 for k in mutated}}
+
+
+def check_reuse(case):
+    R = ref()
+
+    def job():
+        import copy
+
+        from pyxform.xls2xform import convert
+
+        objs = {n: copy.deepcopy(FORMS[n]) for n in set(case["seq"])}
+        before = {n: json.dumps(o, sort_keys=True, default=str) for n, o in objs.items()}
+        out = []
+        for n in case["seq"]:
+            r = convert(objs[n])
+            out.append([r.xform, list(r.warnings), r.itemsets])
+        changed = sorted(n for n, o in objs.items() if json.dumps(o, sort_keys=True, default=str) != before[n])
+        return out, changed
+
+    out, changed = S.in_child(job)
+    viol = []
+    for i, (n, res) in enumerate(zip(case["seq"], out)):
+        part, d = diff_sig(res, R[n])
+        if part:
+            viol.append((f"reuse:{part}-differs:{n}:conversion#{case['seq'][:i].count(n) + 1}-of-the-same-object", d))
+    return {"outcome": "reuse:ok" if not viol else "reuse:bad", "nt": not viol, "viol": viol[:3], "tr": len(case["seq"]),
+            "extra": {f"input-object-changed:{n}": 1 for n in changed}}
 
 
 def check_regen(case):
@@ -519,7 +590,7 @@ def check_sched(case):
 def check_one(case):
     if _REF is None:
         _prepare()
-    return {"seed": check_seed, "hist": check_hist, "regen": check_regen, "sched": check_sched}[case["g"]](case)
+    return {"seed": check_seed, "hist": check_hist, "regen": check_regen, "sched": check_sched, "reuse": check_reuse}[case["g"]](case)
 
 
 def extra_coverage(tier, tot):
@@ -533,8 +604,10 @@ def extra_coverage(tier, tot):
     full = sum(1 for key, orders in by_set.items() if len(orders) == math.factorial(len(key.split("|"))))
     files = {k.split(":", 1)[1]: v for k, v in tot["extra"].items() if k.startswith("preempted-in-file:") and v}
     mutated = sorted(k.split(":", 1)[1] for k in tot["extra"] if k.startswith("mutated-container:"))
+    inputs_changed = sorted(k.split(":", 1)[1] for k in tot["extra"] if k.startswith("input-object-changed:"))
     return {"probe_sets": len(by_set), "probe_sets_with_every_ordering_observed": full,
             "orderings_observed": sum(len(v) for v in by_set.values()),
             "preemptions_fired": tot["extra"].get("preemptions-fired", 0), "preemption_sites_by_file": files,
             "module_level_containers_changed_by_a_history (diagnostic)": mutated,
-            "counters": {k: v for k, v in tot["extra"].items() if not k.startswith(("perm:", "preempted-in-file:", "mutated-container:"))}}
+            "driver_forms_whose_input_object_was_modified_by_convert (diagnostic; the results of the re-conversions are what is checked)": inputs_changed,
+            "counters": {k: v for k, v in tot["extra"].items() if not k.startswith(("perm:", "preempted-in-file:", "mutated-container:", "input-object-changed:"))}}
